@@ -30,6 +30,8 @@ structure DState where
   svc : RimeModel.C16.Svc (Ctx × String) := {}
   created : Nat := 0
   cur : Nat := 0
+  /-- the process-wide steady clock in ms, moved by `sleep` lines only; every session call reads it (Ctx.clock) -/
+  now : Nat := 0
 
 def dedupByText : List Cand → List Bytes → List Cand
   | [], _ => []
@@ -52,7 +54,75 @@ def hexD (s : String) : Bytes := (Hex.decode s).getD []
 def parseProc (s : String) : Proc :=
   match s with
   | "speller" => .speller | "selector" => .selector | "navigator" => .navigator
-  | "express_editor" => .expressEditor | "fluid_editor" => .fluidEditor | "punctuator" => .punctuator | _ => .other
+  | "express_editor" => .expressEditor | "fluid_editor" => .fluidEditor | "punctuator" => .punctuator
+  | "key_binder" => .keyBinder | "ascii_composer" => .asciiComposer | _ => .other
+
+/-- `ascii_composer/switch_key` as loaded: `<keycode>:<style>;…` with style i = inline_ascii, t = commit_text,
+c = commit_code, x = clear (noop entries are not loaded and not listed); `-` = none -/
+def parseAsciiKeys (s : String) : Option (List (Int × AcStyle)) :=
+  if s == "-" || s == "" then some [] else
+  (s.splitOn ";").mapM (fun e => match e.splitOn ":" with
+    | [code, st] => do
+      let code ← code.toInt?
+      let st : AcStyle ← match st with
+        | "i" => some .inline | "t" => some .commitText | "c" => some .commitCode | "x" => some .clear | _ => none
+      pure (code, st)
+    | _ => none)
+
+def hexStr (h : String) : Option String := do
+  let b ← if h == "-" then some [] else Hex.decode h
+  String.fromUTF8? (ByteArray.mk b.toArray)
+
+def parseKeyPair (s : String) : Option (Int × Nat) :=
+  match s.splitOn "." with
+  | [c, m] => do let c ← c.toInt?; let m ← m.toNat?; pure (c, m)
+  | _ => none
+
+/-- one entry `<when>:<keycode>:<mask>:<kind>:<arg>` of `key_binder/bindings`: when = r predicting, p paging, m has_menu,
+c composing, a always; kind s = send / send_sequence (arg: `code.mask,code.mask…`, `-` = empty sequence), t = toggle,
+o = set_option, u = unset_option (arg: option name in hex).  Kind x (`select:`, schema switching) is outside the model:
+the entry does not parse and the schema is refused. -/
+def parseBinding (e : String) : Option KbBinding :=
+  match e.splitOn ":" with
+  | [w, code, mask, kind, arg] => do
+    let whence : KbWhen ← match w with
+      | "r" => some .predicting | "p" => some .paging | "m" => some .hasMenu | "c" => some .composing | "a" => some .always
+      | _ => none
+    let code ← code.toInt?
+    let mask ← mask.toNat?
+    let action : KbAction ← match kind with
+      | "s" => (if arg == "-" then some [] else (arg.splitOn ",").mapM parseKeyPair).map KbAction.send
+      | "t" => do
+        let n ← hexStr arg
+        -- `@<index>`: std::stoul's leniency (sign, blanks, trailing text) is not modelled
+        if n.front = '@' && n ≠ "" && !((n.drop 1).toNat?.isSome) then none else some (.toggle n)
+      | "o" => (hexStr arg).map KbAction.setOption
+      | "u" => (hexStr arg).map KbAction.unsetOption
+      | _ => none
+    pure { whence := whence, code := code, mask := mask, action := action }
+  | _ => none
+
+def parseBindings (s : String) : Option (List KbBinding) :=
+  if s == "-" || s == "" then some [] else (s.splitOn ";").mapM parseBinding
+
+/-- `switches:` entries `t:<name hex>:<reset>` / `r:<name hex>,<name hex>…:<reset>` (reset -1 = not given) -/
+def parseSwitch (e : String) : Option SwitchDef :=
+  match e.splitOn ":" with
+  | ["t", n, r] => do let n ← hexStr n; let r ← r.toInt?; pure (.toggle n r)
+  | ["r", ns, r] => do let ns ← (ns.splitOn ",").mapM hexStr; let r ← r.toInt?; pure (.radio ns r)
+  | _ => none
+
+def parseSwitches (s : String) : Option (List SwitchDef) :=
+  if s == "-" || s == "" then some [] else (s.splitOn ";").mapM parseSwitch
+
+/-- can a binding of this list change `full_shape`?  (by name, through a radio group, or through a switch index) -/
+def touchesShape (bs : List KbBinding) (sws : List SwitchDef) : Bool :=
+  let inGroup := sws.any (fun d => match d with | .radio os _ => os.contains "full_shape" | _ => false)
+  bs.any (fun b => match b.action with
+    | .send _ => false
+    | .toggle o => o == "full_shape" || o.front = '@' || inGroup
+    | .setOption o => o == "full_shape" || inGroup
+    | .unsetOption o => o == "full_shape" || inGroup)
 
 /-- one entry `<key byte>:<kind>:<text>,<text>…` of a punctuation mapping (hex; kinds u = scalar, l = list,
 c = {commit: t}, p = {pair: [a, b]}) -/
@@ -84,8 +154,14 @@ def mkSchema (st : DState) (id : String) (full : Bool := false) : Option SchemaC
     let initials := if initials0 = [] then alphabet else initials0
     let uniq := kv kvs "uniq" == "1"
     let hasPunct := kv kvs "punctHalf" != ""
-    match parsePunctMap (kv kvs "punctHalf"), parsePunctMap (kv kvs "punctFull") with
-    | some half, some fullm =>
+    match parsePunctMap (kv kvs "punctHalf"), parsePunctMap (kv kvs "punctFull"), parseBindings (kv kvs "kb"),
+          parseSwitches (kv kvs "switches"), parseAsciiKeys (kv kvs "asciiKeys") with
+    | some half, some fullm, some bindings, some switches, some asciiKeys =>
+      -- outside the model: a binding that can change full_shape when the key binder is not the first processor (the
+      -- environment of the call is chosen from the state at its start, Session/Shape.lean) or when full_shape sits in a
+      -- radio group (the group's options are stored one by one, each followed by a recomposition)
+      let shapeRadio := switches.any (fun d => match d with | .radio os _ => os.contains "full_shape" | _ => false)
+      if procs.contains .keyBinder && touchesShape bindings switches && (procs.head? != some .keyBinder || shapeRadio) then none else
       -- outside the model: digit separators (they read the commit history); a punctuation key that is also a letter
       -- (a segment would carry both tags and hold candidates of both translators)
       let keys := (half ++ fullm).map (·.1)
@@ -101,11 +177,12 @@ def mkSchema (st : DState) (id : String) (full : Bool := false) : Option SchemaC
         maxCodeLength := (kv kvs "maxCodeLength").toNat?.getD 0, autoSelect := kv kvs "autoSelect" == "1",
         useSpace := kv kvs "useSpace" == "1",
         autoClear := match kv kvs "autoClear" with | "auto" => .auto | "manual" => .manual | "max_length" => .maxLength | _ => .none,
-        processors := procs, punct := pc,
+        processors := procs, punct := pc, bindings := bindings, switches := switches,
+        asciiKeys := asciiKeys, goodOldCapsLock := kv kvs "goodOldCaps" == "1",
         format := if full then shapeFormat else (fun t => t),
         recompose := if hasPunct then composeP pcfg else compose scfg }
       some { id := id, env := env, uniq := uniq, express := procs.contains .expressEditor }
-    | _, _ => none
+    | _, _, _, _, _ => none
 
 def hexO (b : Bytes) : String := Hex.encode b
 
@@ -136,15 +213,24 @@ def showViewOnly (v : View) (ret : Ret) (pending : Bytes := []) : String :=
     s ++ s!" menu={m.pageSize},{m.pageNo},{if m.isLast then 1 else 0},{m.highlighted},{m.cands.length},[{cs}]"
   | none => s ++ " menu=~"
 
-def showView (v : View) (ret : Ret) (c : Ctx) : String := showViewOnly v ret c.commitBuf ++ showSegs c.comp
+/-- the options the observation line reports (harness: same list, same order) -/
+def reportedOptions : List String :=
+  ["ascii_mode", "full_shape", "ascii_punct", "soft_cursor", "_linear", "_vertical", "_horizontal", "opt_a", "opt_b", "opt_c", "@9"]
+
+def showOpts (c : Ctx) : String := " opts=" ++ String.join (reportedOptions.map (fun n => if c.getOption n then "1" else "0"))
+
+def showView (v : View) (ret : Ret) (c : Ctx) : String := showViewOnly v ret c.commitBuf ++ showSegs c.comp ++ showOpts c
 
 def freshCtx (sc : SchemaCfg) (old : Option Ctx) : Ctx :=
+  -- ApplySchema clears the context first: the old ascii composer's update listener, if connected, turns ascii_mode off
+  let old := old.map (fun c => acSettle { c with input := [], caret := 0, comp := {} })
   let keep := match old with
     | some c => c.options.filter (fun o => !(o.1.startsWith "_"))
     | none => []
   let buf := match old with | some c => c.commitBuf | none => []
   let hasEditor := sc.env.processors.contains .expressEditor || sc.env.processors.contains .fluidEditor
-  { options := (if hasEditor then [("_auto_commit", sc.express)] else []) ++ keep, commitBuf := buf }
+  -- components are created first (Editor's constructor sets _auto_commit), then ConcreteEngine::InitializeOptions
+  swInitOptions sc.env.switches { options := (if hasEditor then [("_auto_commit", sc.express)] else []) ++ keep, commitBuf := buf }
 
 def toMask (n : Int) : Nat := if n < 0 then (n + 4294967296).toNat else n.toNat
 
@@ -180,7 +266,7 @@ def sessStep (st : DState) (cs : Ctx × String) (d : DOp) : (Ctx × String) × S
   | .api op =>
     match mkSchema st cs.2 false, mkSchema st cs.2 true with
     | some sc, some scFull =>
-      let r := apiStepS (fun b => if b then scFull.env else sc.env) cs.1 op
+      let r := apiStepK (fun b => if b then scFull.env else sc.env) { cs.1 with clock := st.now } op
       ((r.1, cs.2), showView (view sc.env r.1) r.2 r.1)
     | _, _ => (cs, "bad-op")
 
@@ -217,6 +303,11 @@ def step (st : DState) (line : String) : DState × Option String :=
         let r := RimeModel.C16.Svc.step fresh (sessStep st) st.svc (.create k)
         let st := { st with svc := r.1, created := k + 1, cur := k }
         (st, some (showCur st true))
+  | ["sleep", ms] =>
+    -- the environment lets `ms` milliseconds pass (for every session: the clock is the process's)
+    match ms.toNat? with
+    | none => (st, some "bad-op")
+    | some ms => let st := { st with now := st.now + ms }; (st, some (showCur st true))
   | ["use", k] =>
     match k.toNat? with
     | none => (st, some "bad-op")
